@@ -508,7 +508,8 @@ class ObjectDomain(LazyGenerators, EffectDomain):
                 elif isinstance(n, ast.Global) and name in n.names:
                     found.append((n, None))
             ok = len(found) == 1 and isinstance(found[0][0], (ast.Assign, ast.AnnAssign)) and isinstance(found[0][1], ast.Name) and getattr(found[0][0], "_func", None) is None \
-                and getattr(found[0][0], "_class", None) is None and (isinstance(found[0][0].value, self._LITERAL_NODES) or self._pure_constructor(found[0][0].value))
+                and getattr(found[0][0], "_class", None) is None and (isinstance(found[0][0].value, self._LITERAL_NODES) or self._pure_constructor(found[0][0].value)
+                                                                      or self._made_by_repo_function(mod, found[0][0].value))
             cache[name] = found[0][0].value if ok else None
         expr = cache[name]
         if expr is None:
@@ -521,6 +522,63 @@ class ObjectDomain(LazyGenerators, EffectDomain):
         frame = Frame(holder, fr.depth + 1, None, name="<module>", is_method=False)
         frame.caller = fr
         return list(interp.eval(expr, st, frame))
+
+    def default_value(self, expr, func):
+        """A parameter default that names something of the module (a class, a function, a builtin function): that thing."""
+        if isinstance(expr, ast.Name):
+            mod = getattr(func, "_module", None)
+            if expr.id in ("repr", "str", "bool", "len", "getattr", "setattr"):
+                return ("builtin", expr.id)
+            ci = self.classes.lookup(mod, expr.id) if mod is not None else None
+            if ci is not None and not ci.external:
+                return ("classref", ci)
+            f = self.classes.lookup_function(mod, expr.id) if mod is not None else None
+            if f is not None:
+                return ("func", f)
+        return TOP
+
+    def _made_by_repo_function(self, mod, expr):
+        """NAME = factory(<constants / names>) at module level, the factory being a function of the repository (a matcher made by
+        MatchesPredicateWithParams ...): what the call makes is what the name holds."""
+        if not (isinstance(expr, ast.Call) and isinstance(expr.func, ast.Name) and not any(isinstance(a, ast.Starred) for a in expr.args) and all(k.arg is not None for k in expr.keywords)):
+            return False
+        if not all(isinstance(a, (ast.Constant, ast.Name, ast.Attribute)) for a in list(expr.args) + [k.value for k in expr.keywords]):
+            return False
+        return self.classes.lookup_function(mod, expr.func.id) is not None
+
+    def import_from(self, interp, stmt, st, fr):
+        """`from .module import name` inside a function: the local names are bound to what those names are in that module."""
+        mod = getattr(fr.func, "_module", None)
+        if mod is None:
+            return None
+        base = mod.name.split(".")
+        is_pkg = mod.path.endswith("__init__.py") if hasattr(mod, "path") else False
+        if stmt.level:
+            base = base[: len(base) - stmt.level + (1 if is_pkg else 0)]
+            target = ".".join(base + ([stmt.module] if stmt.module else []))
+        else:
+            target = stmt.module or ""
+        if target not in self.classes.repo.modules:
+            return None
+        src = self.classes.repo.modules[target]
+        from .absint import Frame
+        for al in stmt.names:
+            name, local = al.name, al.asname or al.name
+            ci = self.classes.lookup(src, name)
+            f = self.classes.lookup_function(src, name) if ci is None else None
+            if ci is not None and not ci.external:
+                st = st.set(fr.local(local), ("classref", ci))
+            elif f is not None:
+                st = st.set(fr.local(local), ("func", f))
+            else:
+                holder = ast.parse("def _importing():\n    pass").body[0]
+                holder._module, holder._parent, holder._class = src, src.tree, None
+                frame = Frame(holder, fr.depth + 1, None, name=f"<module {target}>", is_method=False)
+                frame.caller = fr
+                got = self._module_table(interp, name, st, frame)
+                if got and len(got) == 1 and got[0].kind == "val":
+                    st = got[0].state.set(fr.local(local), got[0].value)
+        return st
 
     def _root_attr(self, interp, chain, st, fr):
         """self.<name> on the analysed object, when it is neither state nor environment: class-level tables."""
@@ -964,6 +1022,10 @@ class ObjectDomain(LazyGenerators, EffectDomain):
         if tag == "builtin" and len(pos) <= 1:
             if fn[1] == "bool" and pos:
                 return [val({"T": TRUE, "F": FALSE}.get(self.truth(pos[0]), ("bool",)), st)]
+            if fn[1] in ("repr", "str") and pos:
+                ok_, p_ = self._py(unbox_deep(pos[0], st))
+                if ok_ and isinstance(p_, (int, float, str, bytes, bool, type(None))):
+                    return [val(("const", (repr if fn[1] == "repr" else str)(p_)), st)]
             if fn[1] == "len" and pos:
                 els = interp._exact_elements(pos[0])
                 return [val(("const", len(els)) if els is not None else TOP, st)]
@@ -1394,6 +1456,8 @@ class ObjectDomain(LazyGenerators, EffectDomain):
                 return out
         if d in ("repr", "str") and len(call.args) == 1 and not call.keywords:
             got = interp.eval(call.args[0], st, fr)
+            if got and all(r.kind == "exc" or (self._py(r.value)[0] and isinstance(self._py(r.value)[1], (int, float, str, bytes, bool, type(None))) and not isinstance(self._py(r.value)[1], tuple)) for r in got):
+                return [r if r.kind == "exc" else val(("const", (repr if d == "repr" else str)(self._py(r.value)[1])), r.state) for r in got]
             if got and all(r.kind == "exc" or is_inst(r.value) for r in got):
                 out = []
                 for r in got:
